@@ -378,3 +378,39 @@ Definition exec_ok (ps : list eprop) (obs : list (N * list N)) : bool :=
   && (total obs =? length ps)%nat.
 
 Definition nonces_distinct (ps : list eprop) : bool := nodupb N.eqb (map e_nonce ps).
+
+(* ---------------------------------------------------------------------------------------------- *)
+(* Round 4: HISTORIES of builds on one long-lived Executor.
+
+   The Executor lives as long as the relayer; rawTx reads, of the Executor, only configuration
+   (mempool client, uploader, chain parameters): it keeps nothing from one build to the next.  Every
+   build asks the service for the CURRENT fee rate and the CURRENT UTXO set.  So the result of a build
+   is [build_one] of its own inputs, whatever was built - or failed to build - before.
+
+   b_svc = false: the UTXO / fee service fails during this build (HTTP error, unparsable answer):
+   rawTx returns that error. *)
+Record build := mkBuild { b_ps : list prop; b_listing : list utxo; b_rate : Z; b_cid : list N;
+                          b_up : bool; b_svc : bool }.
+
+Definition build_one (bridge : list N) (b : build) : result :=
+  if b_svc b then raw_tx (b_ps b) (b_listing b) (b_rate b) bridge (b_cid b) (b_up b) else Err.
+
+(* the builds of a history, in order, on one Executor *)
+Definition build_run (bridge : list N) (bs : list build) : list result := map (build_one bridge) bs.
+
+(* what is judged of one build of a history: its proposals, the bridge's UTXO set at that moment, and
+   the runs over it (the long-lived Executor's, then a fresh Executor's on the same inputs), each with
+   the relayer's own quote for its shape AT THE CURRENT RATE (real fee() of a fresh Executor) *)
+Definition build_obs : Type := (list prop * list utxo * list run_res)%type.
+
+Definition seq_spec (bridge : list N) (obs : list build_obs) : bool :=
+  forallb (fun o => spec_all (fst (fst o)) (snd (fst o)) bridge (snd o)) obs.
+
+Definition build_wf (b : build) : bool := wf (b_ps b) (b_listing b) (b_rate b).
+
+(* the model's observation of a history: long-lived result = the one of [build_run], fresh = [build_one] *)
+Definition model_build_obs (bridge : list N) (bs : list build) : list build_obs :=
+  map (fun br => (b_ps (fst br), b_listing (fst br),
+                  [project (b_ps (fst br)) (b_rate (fst br)) (snd br);
+                   project (b_ps (fst br)) (b_rate (fst br)) (build_one bridge (fst br))]))
+      (combine bs (build_run bridge bs)).
